@@ -255,6 +255,13 @@ static std::string sv_ops(Line const& l)
     auto const& op = l.op;
     auto* v        = new V();
     for (auto x : e) v->push_back(T(static_cast<int>(x)));
+    // hist=1..3: the same abstract state reached through insert/erase, pop/push, resize up and down (valid calls only)
+    if constexpr (Cap != 0) {
+        int const hist = static_cast<int>(l.i("hist", 0));
+        if (hist == 1 && e.size() < Cap) { v->insert(v->begin(), T(77)); v->erase(v->begin()); }
+        if (hist == 2 && !e.empty()) { T last = v->back(); v->pop_back(); v->emplace_back(last); }
+        if (hist == 3) { v->resize(Cap); v->resize(e.size()); }
+    }
     V const* cv = v;
     auto snap   = [v] { return fmt(contents(*v, Cap)); };
     int const k = static_cast<int>(l.i("k", 0));
@@ -385,6 +392,11 @@ static std::string iv_ops(Line const& l)
     auto const& op = l.op;
     auto* v        = new V();
     for (auto x : e) v->try_push_back(static_cast<int>(x));
+    if constexpr (Cap != 0) { // hist=1,2: the same abstract state reached through push/pop
+        int const hist = static_cast<int>(l.i("hist", 0));
+        if (hist == 1 && e.size() < Cap) { v->unchecked_push_back(77); v->pop_back(); }
+        if (hist == 2 && !e.empty()) { int last = v->back(); v->pop_back(); v->unchecked_emplace_back(last); }
+    }
     V const* cv = v;
     auto snap   = [v] { return fmt(contents(*v, Cap)); };
     int const k = static_cast<int>(l.i("k", 0));
@@ -567,6 +579,12 @@ static std::string str_ops(Line const& l)
     auto const& op = l.op;
     auto* s        = new S();
     for (auto x : e) s->push_back(static_cast<char>(x));
+    { // hist=1..3: the same abstract state reached through insert/erase, pop/push, a longer string that was cut back
+        int const hist = static_cast<int>(l.i("hist", 0));
+        if (hist == 1 && e.size() < Cap) { s->insert(0, 1, 'Z'); s->erase(0, 1); }
+        if (hist == 2 && !e.empty()) { char last = s->back(); s->pop_back(); s->push_back(last); }
+        if (hist == 3) { s->append(Cap - e.size(), 'Q'); s->erase(e.size(), Cap); }
+    }
     S const* cs = s;
     auto state  = [s] {
         Vec o;
